@@ -113,6 +113,13 @@ def run(chk, prog):
     r = Evaluator(prog).eval_fn(dec, m, env0={"selection": P("selection"), "algorithm": P("algorithm")})
     chk.require(r.ret == ("ctor", "Marginal", (P("gen_fn"), P("selection"), P("algorithm")), ()) and ci.fields[:3] == ["gen_fn", "selection", "algorithm"], "DELEG-ROLE", "marginal.decorator", "field order",
                 derived=show(r.ret), expected="Marginal(gen_fn, selection, algorithm)", where=chk.where(m, dec))
+    gfc = prog.cls("GenerativeFunction", "core/generative/generative_function.py")
+    rm = Evaluator(prog).eval_fn(gfc.methods["marginal"], gfc.module, gfc)
+    selt = ("phi", ("is", P("selection"), ("const", None)), ("call", ("attr", ("global", "genjax.Selection"), "all"), (), ()), P("selection"))
+    tm = rm.ret
+    okm = is_t(tm, "call") and tm[2] == (P("self"),) and is_t(tm[1], "call") and dict(tm[1][3]).get("algorithm") == P("algorithm") and is_t(dict(tm[1][3]).get("selection"), "phi") \
+        and dict(tm[1][3])["selection"][3] == P("selection") and is_call(dict(tm[1][3])["selection"][2], "all")
+    chk.require(okm, "DELEG-ROLE", "GenerativeFunction.marginal", "selection (default: all) and algorithm forwarded in their roles", derived=show(tm)[:240], expected="marginal(selection=selection or Selection.all(), algorithm=algorithm)(self)", where=chk.where(gfc.module, gfc.methods["marginal"]))
     # ---- SIG-VARIADIC
     sig_variadic(chk, prog, [("Distribution", "distributions/distribution.py"), ("Marginal", MOD), ("Algorithm", MOD)])
     # Target.importance merges the target's constraint on the dominant side (used by the algorithm arm)
